@@ -319,6 +319,7 @@ func c16(c *eng.Ctx) {
 		}
 	}
 
+	c16AdmitsValidated(c)
 	c16Parsers(c)
 	c16NilOnError(c)
 	c16Ranges(c)
@@ -972,5 +973,76 @@ func c16Referential(c *eng.Ctx) {
 		}
 		c.Check("R6", vfc, "empty schema name rejected", vfc.Pos(), empty, "")
 		c.Check("R6", vfc, "duplicate schema name rejected", vfc.Pos(), dup, "two schemas of one name share one limiter")
+	}
+}
+
+
+// ---- R7 (added after seeded change C16-2) -----------------------------------------------
+
+// c16AdmitsValidated: in the admission plugin's Validate every admitting return (nil, or the
+// aggregate of the collected errors) is reached only through ValidateUpstreamCluster of the
+// object and through the read of its feature-gate annotation; the only exempt return is the
+// one for requests the plugin ignores. A shortcut such as "spec unchanged ⇒ admit" lets an
+// annotation-only update with an unusable feature-gate value through.
+func c16AdmitsValidated(c *eng.Ctx) {
+	c.Rule("R7", "every admitted object was validated: in the admission plugin's Validate each return that can admit passes ValidateUpstreamCluster of the object and the feature-gate annotation check; only ignored requests return early", 2)
+	named := c.W.Named(pkgAdmission, "upstreamclusterPlugin")
+	if named == nil {
+		c.Fail("engine", nil, "unresolved-anchor type upstreamclusterPlugin", 0, "")
+		return
+	}
+	v := c.W.DeclaredMethod(named, "Validate")
+	if v == nil || v.Blocks == nil {
+		c.Fail("engine", nil, "unresolved-anchor method Validate", 0, "")
+		return
+	}
+	isValidate := func(i ssa.Instruction) bool { return eng.IsPlainCall(i, pkgValidation+".ValidateUpstreamCluster") }
+	isAnnRead := func(i ssa.Instruction) bool {
+		l, ok := i.(*ssa.Lookup)
+		return ok && c09LeafFieldOfLookup(l) == "Annotations"
+	}
+	isAnnNilTest := func(i ssa.Instruction) bool {
+		iff, ok := i.(*ssa.If)
+		if !ok {
+			return false
+		}
+		r := eng.RelOf(iff.Cond, true)
+		_, px := eng.AccessPath(r.X)
+		return len(px) > 0 && px[len(px)-1] == "Annotations" && eng.IsNilConst(r.Y)
+	}
+	n := 0
+	eng.Instrs(v, func(ins ssa.Instruction) {
+		r, ok := ins.(*ssa.Return)
+		if !ok || r.Block() == v.Recover || len(r.Results) != 1 {
+			return
+		}
+		res := eng.ReturnResults(r)[0]
+		// returns of a definite error (Forbidden, list failure) do not admit
+		if cc, _ := eng.CallResultOf(res); cc != nil && !eng.MethodNameIs(cc, "ToAggregate") {
+			return
+		}
+		// the ignore edge
+		if eng.GuardedByBool(r, func(x ssa.Value) bool {
+			cc, _ := eng.CallResultOf(x)
+			return cc != nil && eng.IsCall(cc, pkgAdmission+".shouldIgnore")
+		}, true) {
+			return
+		}
+		n++
+		okV := eng.AlwaysBefore(v, r, isValidate)
+		okA := eng.AlwaysBefore(v, r, func(i ssa.Instruction) bool { return isAnnRead(i) || isAnnNilTest(i) })
+		c.Check("R7", v, fmt.Sprintf("admitting return#%d only after full validation", n), r.Pos(), okV && okA,
+			"an object can be admitted on a path that skips ValidateUpstreamCluster or the feature-gate annotation check (e.g. a \"spec unchanged\" shortcut for updates): an annotation-only update to an unusable gate value is stored and ClusterInfo.Sync of it fails before anything else is applied")
+	})
+	if n == 0 {
+		c.Fail("R7", v, "admitting return", v.Pos(), "no admitting return found")
+	}
+	// the object validated is the request's object
+	for _, ci := range eng.CallsTo(v, pkgValidation+".ValidateUpstreamCluster") {
+		from := c.Slicer().DerivesFrom(eng.Args(ci)[0], func(x ssa.Value) bool {
+			cc, _ := eng.CallResultOf(x)
+			return cc != nil && eng.MethodNameIs(cc, "GetObject")
+		})
+		c.Check("R7", v, "the submitted object is what is validated", ci.Pos(), from, "")
 	}
 }
